@@ -212,8 +212,10 @@ def gen_workload(tape):
     w["calls"] = calls
     # the (documented, so far unused) threads argument of Collocator
     w["threads"] = tape.pick([None, None, 2, 3], "threads")
-    w["line_points"] = [1 + tape.choice(150, "linegap") for _ in range(8)] \
-        if bigrun and w["threads"] else []
+    # line pre-emption of pool workers (only the binned-path runs could have any)
+    w["line_stride"] = 17 + tape.choice(40, "linestride") if bigrun else 0
+    w["line_phase"] = 1 + tape.choice(60, "linephase") if bigrun else 0
+    w["store_stride"] = 1 + tape.choice(5, "storestride") if bigrun else 0
     w["perm"] = tape.pick(["random", "reverse", "identity", "rot1"], "perm")
     w["perm_seed"] = tape.choice(10 ** 6, "permseed")
     return w
@@ -272,15 +274,13 @@ def run_one(tape, only=None):
                 seams.append((mod, name, fake))
     sim = Sim(tape, make_policy(tape, allow=("random", "sticky")), step_cap=200000)
     SimPoolBase.sim, SimPoolBase.registry = sim, []
-    if w["line_points"]:
-        pts, acc = [], 0
-        for g in w["line_points"]:
-            acc += g
-            pts.append(acc)
-        repo = os.path.dirname(os.path.dirname(os.path.abspath(cmod.__file__)))
-        sim.line_preempt = LinePreempt(sim, [
-            os.path.join(repo, "collocations", "collocator.py"),
-            os.path.join(repo, "geographical.py")], pts)
+    if w["line_stride"]:
+        from sim.linepreempt import periodic_points
+        sim.line_preempt = LinePreempt(
+            sim, [cmod, gmod],
+            periodic_points(w["line_phase"], w["line_stride"], 400), only="pool",
+            store_points=periodic_points(1 + w["line_phase"] % w["store_stride"],
+                                         w["store_stride"], 600))
 
     def _calls():
         nonlocal prev, nontrivial
